@@ -426,6 +426,22 @@ def nomap_rejects_negative(ctx: Ctx) -> None:
         else:
             ctx.bad(R, f, arm[0][1][0], f'the {what} arm of the map-less route returns the key without rejecting negative integers: `-1` is not a label of an '
                     'auto-integer index but selects the last position', key=key)
+    # the integer-array arm casts other kinds to int: the cast must be checked against the source (1.5 is not the label 1)
+    arm = [(t, b) for t, b in arms if 'ndarray' in t]
+    if arm:
+        casts = [a for s in arm[0][1] for a in ast.walk(s) if isinstance(a, ast.Assign) and isinstance(a.value, ast.Call) and isinstance(a.value.func, ast.Attribute)
+                 and a.value.func.attr == 'astype']
+        returns_cast = [r for s in arm[0][1] for r in ast.walk(s) if isinstance(r, ast.Return) and isinstance(r.value, ast.Call) and isinstance(r.value.func, ast.Attribute)
+                        and r.value.func.attr == 'astype']
+        n += 1
+        key = 'Index._loc_to_iloc:no-map:integer array:cast-checked'
+        checked = any(isinstance(i, ast.If) and any(isinstance(x, ast.Raise) for b in i.body for x in ast.walk(b)) and
+                      any(isinstance(c, ast.Compare) and len(c.ops) == 1 and isinstance(c.ops[0], (ast.Eq, ast.NotEq)) for c in ast.walk(i.test))
+                      for s in arm[0][1] for i in ast.walk(s))
+        if returns_cast or (casts and not checked):
+            ctx.bad(R, f, (returns_cast or casts)[0], 'the integer-array arm casts a key of another kind to int and uses it unchecked: `[1.5]` selects the label 1', key=key)
+        else:
+            ctx.ok(R, f, arm[0][1][0], 'a cast key is compared with its source and a difference raises', key=key)
     ctx.require(n >= 4, 'arms of the map-less route')
 
 
